@@ -1,9 +1,15 @@
+#![feature(allocator_api)]
 // unit `simp_int` — C07: the intuitionistic portfolio (local rewrite rules)
 use vstd::prelude::*;
 use vstd::std_specs::iter::IteratorSpec;
 verus! {
 //@include spec/prelude.rs
 broadcast use {axiom_string_ext, axiom_str_ext, axiom_str_of, axiom_vec_ext, axiom_vec_of, axiom_display_string, axiom_display_str};
+// (needs #![feature(allocator_api)]: the allocator parameter of Vec appears in the signature)
+// T14. Vec::dedup ("Removes consecutive repeated elements in the vector according to the PartialEq trait implementation"): no element is lost or invented
+pub assume_specification<T: PartialEq, A: std::alloc::Allocator>[ Vec::<T, A>::dedup ](v: &mut Vec<T, A>)
+    ensures forall|x: T| final(v)@.contains(x) == old(v)@.contains(x);
+
 //@include spec/indexset.rs
 //@include units/fol_types.inc
 //@include spec/sem.rs
@@ -14,6 +20,10 @@ broadcast use {axiom_string_ext, axiom_str_ext, axiom_str_of, axiom_vec_ext, axi
 //@include units/unbox.inc
 //@include spec/simp_spec.rs
 //@include spec/evalcmp_lemmas.rs
+//@include spec/fvlink_lemmas.rs
+//@include spec/block_lemmas.rs
+//@include spec/scope_lemmas.rs
+//@include spec/quantvars_lemmas.rs
 
 //@fn src/simplifying/fol/sigma_0/intuitionistic.rs :: fn evaluate_comparisons
 //@ .ret r
@@ -90,6 +100,95 @@ broadcast use {axiom_string_ext, axiom_str_ext, axiom_str_of, axiom_vec_ext, axi
 //@     ensures preserves_ht(r, formula),
 //@ .hint before "match formula {"
 //@     proof { broadcast use lemma_persist_any; reveal_with_fuel(ht_sat, 3); reveal_with_fuel(cl_sat, 3); reveal_with_fuel(fv, 3); }
+//@end
+
+//@fn src/simplifying/fol/sigma_0/intuitionistic.rs :: fn remove_orphaned_variables
+//@ .ret r
+//@ .attr #[verifier::loop_isolation(false)]
+//@ .spec
+//@     ensures preserves_ht(r, formula),
+//@ .hint before "match formula {"
+//@     let ghost orig = formula;
+//@ .hint before "let free_variables = formula.free_variables();"
+//@     let ghost vars0 = variables@;
+//@     let ghost body = *formula;
+//@ .loop 1 as it
+//@     invariant
+//@         it.seq() == vars0, 0 <= it.index@ <= vars0.len(),
+//@         forall|x: Variable| #[trigger] d23_0_out@.contains(x) ==> vars0.contains(x) && free_variables@.contains(x),
+//@         forall|j: int| 0 <= j < it.index@ && free_variables@.contains(#[trigger] vars0[j]) ==> d23_0_out@.contains(vars0[j]),
+//@ .hint before "if d23_0_keep"
+//@     let ghost o0 = d23_0_out@;
+//@     let ghost j0 = it.index@ as int;
+//@ .hint after "d23_0_out.push(d23_0_x); }"
+//@     proof {
+//@         assert(d23_0_keep ==> d23_0_out@ == o0.push(vars0[j0]));
+//@         assert forall|x: Variable| #[trigger] d23_0_out@.contains(x) implies vars0.contains(x) && free_variables@.contains(x) by {
+//@             if d23_0_keep { let q0 = choose|q0: int| 0 <= q0 < d23_0_out@.len() && d23_0_out@[q0] == x; if q0 < o0.len() { assert(o0[q0] == x); assert(o0.contains(x)); } else { assert(x == vars0[j0]); } }
+//@         }
+//@         assert forall|j: int| 0 <= j < j0 + 1 && free_variables@.contains(#[trigger] vars0[j]) implies d23_0_out@.contains(vars0[j]) by {
+//@             if j < j0 { assert(o0.contains(vars0[j])); let q0 = choose|q0: int| 0 <= q0 < o0.len() && o0[q0] == vars0[j]; assert(d23_0_out@[q0] == vars0[j]); }
+//@             else { assert(d23_0_out@[o0.len() as int] == vars0[j0]); }
+//@         }
+//@     }
+//@ .hint after "d23_0_out };"
+//@     proof {
+//@         let kept = variables@;
+//@         assert forall|k: VKey| bound_by(kept, k) implies bound_by(vars0, k) by {
+//@             let i = choose|i: int| 0 <= i < kept.len() && #[trigger] vkey(kept[i]) == k;
+//@             assert(kept.contains(kept[i]));
+//@             let j = choose|j: int| 0 <= j < vars0.len() && vars0[j] == kept[i];
+//@             assert(vkey(vars0[j]) == k);
+//@         }
+//@         assert forall|k: VKey| bound_by(vars0, k) && !bound_by(kept, k) implies !fv(body, k) by {
+//@             let j = choose|j: int| 0 <= j < vars0.len() && #[trigger] vkey(vars0[j]) == k;
+//@             lemma_spec_fv(body, vars0[j]);
+//@             if fv(body, k) {
+//@                 assert(kept.contains(vars0[j]));
+//@                 let i = choose|i: int| 0 <= i < kept.len() && kept[i] == vars0[j];
+//@                 assert(vkey(kept[i]) == k);
+//@             }
+//@         }
+//@         assert(is_block(orig, quantifier, vars0, body));
+//@         assert forall|r2: Formula| is_block(r2, quantifier, kept, body) implies #[trigger] preserves_ht(r2, orig) by {
+//@             lemma_orphans(orig, r2, quantifier, vars0, kept, body);
+//@         }
+//@     }
+//@end
+
+//@fn src/simplifying/fol/sigma_0/intuitionistic.rs :: fn join_nested_quantifiers
+//@ .ret r
+//@ .spec
+//@     ensures preserves_ht(r, formula),
+//@ .hint before "match formula.unbox()"
+//@     let ghost orig = formula;
+//@ .hint before "let mut variables = outer_quantification.variables;"
+//@     let ghost xs = outer_quantification.variables@;
+//@     let ghost ys = inner_quantification.variables@;
+//@     let ghost q = outer_quantification.quantifier;
+//@     let ghost body = *inner_formula;
+//@ .hint before "variables.sort();"
+//@     let ghost v1 = variables@;
+//@ .hint before "variables.dedup();"
+//@     let ghost v2 = variables@;
+//@ .hint before "inner_formula.quantify(outer_quantification.quantifier, variables)"
+//@     proof {
+//@         let zs = variables@;
+//@         assert(v1 =~= xs + ys);
+//@         v1.to_multiset_ensures();
+//@         v2.to_multiset_ensures();
+//@         assert forall|x: Variable| #[trigger] zs.contains(x) == (xs + ys).contains(x) by {
+//@             assert(v1.contains(x) == (v1.to_multiset().count(x) > 0));
+//@             assert(v2.contains(x) == (v2.to_multiset().count(x) > 0));
+//@         }
+//@         assert forall|k: VKey| bound_by(zs, k) == (bound_by(xs, k) || bound_by(ys, k)) by {
+//@             lemma_bound_by_concat(xs, ys, k);
+//@             let xy = xs + ys;
+//@             if bound_by(zs, k) { let i = choose|i: int| 0 <= i < zs.len() && #[trigger] vkey(zs[i]) == k; assert(zs.contains(zs[i])); let j = choose|j: int| 0 <= j < xy.len() && xy[j] == zs[i]; assert(vkey(xy[j]) == k); }
+//@             if bound_by(xy, k) { let i = choose|i: int| 0 <= i < xy.len() && #[trigger] vkey(xy[i]) == k; assert(xy.contains(xy[i])); assert(zs.contains(xy[i]) == (xs + ys).contains(xy[i])); let j = choose|j: int| 0 <= j < zs.len() && zs[j] == xy[i]; assert(vkey(zs[j]) == k); }
+//@         }
+//@         lemma_join(orig, q, xs, ys, zs, body, *orig->QuantifiedFormula_formula);
+//@     }
 //@end
 
 } // verus!
